@@ -235,6 +235,15 @@ def entryPlainOK (markers : List MarkerRow) (e : StyleEntry) : Bool :=
     !(textPfx.isPrefixOf p.1 && isMarkerKey (attrName (p.1.drop 5))) &&
     (if p.1 = strokeKey ∧ e.oc.takeWhile (· ≠ '.') = edgeName then isColor p.2 else true)
 
+/-- a style override, for "every element draws": the rules of `entryPlainOK` for an element of `Edge` type or not;
+a stroke only has to parse as a colour (`#RGB`, `#RRGGBB[AA]`) -/
+def overridePlainOK (markers : List MarkerRow) (edgeType : Bool) (p : Str × Val) : Bool :=
+  (if isMarkerKey p.1 then edgeType && (match p.2 with | .str m => hasMarker markers m | _ => false) else true) &&
+  !(textPfx.isPrefixOf p.1 && isMarkerKey (attrName (p.1.drop 5))) &&
+  (if p.1 = strokeKey ∧ edgeType = true then (match hexOf p.2 with | .ok _ => true | .error _ => false) else true)
+
+def isEdgeType (k : Kind) : Bool := match k with | .edge | .circle => true | _ => false
+
 /-- ids defined more than once by the fragments of the symbol table -/
 def clashIds (symbols : List SymbolRow) : List Str :=
   let all := symbols.flatMap (·.ids)
